@@ -297,6 +297,13 @@ def gen_schema(d, *, max_types=8, rich_names=True, defaults=0.3, custom_scalars=
     # enums
     for _ in range(n_enum):
         name = take() + "Enum"
+        if desc.enums and d.bool(0.3):
+            # a name that CONTAINS another type's name (filters by substring / prefix would confuse them)
+            name = d.choice(sorted(desc.enums)) + d.choice(["Ext", "V2", "Kind"])
+            if name in desc.enums:
+                name = take() + "Enum"
+            else:
+                d.tag("schema.name_contains_name")
         used = set()
         pools = [(8, ENUM_VALUES_PLAIN)]
         if rich_names:
@@ -317,6 +324,9 @@ def gen_schema(d, *, max_types=8, rich_names=True, defaults=0.3, custom_scalars=
     in_leaf = BUILTIN_SCALARS + list(desc.enums) + desc.scalars * scalar_weight
     # inputs: names first (recursion / forward refs), then fields
     input_names = [take() + "Input" for _ in range(n_input)]
+    if len(input_names) >= 2 and d.bool(0.3):
+        input_names[-1] = input_names[0] + d.choice(["Ext", "V2", "Patch"])
+        d.tag("schema.name_contains_name")
     desc.pending_inputs = set(input_names)
     for idx, name in enumerate(input_names):
         used = set()
@@ -366,10 +376,13 @@ def gen_schema(d, *, max_types=8, rich_names=True, defaults=0.3, custom_scalars=
                 args.append((an, atype, adef))
         return args
 
-    def gen_out_fields(used, kmin, kmax):
+    def gen_out_fields(used, kmin, kmax, own=None):
         fields = []
         for fn in pick_names(d, d.int(kmin, kmax), used, field_name_pools(d, rich_names)):
-            if composite and d.bool(0.4):
+            if own is not None and d.bool(0.12):
+                target = own  # a self-referential field (trees, linked lists)
+                d.tag("schema.self_recursive_output")
+            elif composite and d.bool(0.4):
                 target = d.choice(composite)
             else:
                 target = d.choice(out_leaf)
@@ -391,7 +404,7 @@ def gen_schema(d, *, max_types=8, rich_names=True, defaults=0.3, custom_scalars=
                     if canon(f["name"]) not in used:
                         used.add(canon(f["name"]))
                         fields.append(f)
-        fields += gen_out_fields(used, 1, 3)
+        fields += gen_out_fields(used, 1, 3, own=name)
         desc.interfaces[name] = {"implements": list(dict.fromkeys(impl)), "fields": fields}
     for name in obj_names:
         impl = []
@@ -428,7 +441,23 @@ def gen_schema(d, *, max_types=8, rich_names=True, defaults=0.3, custom_scalars=
             used = {canon(f["name"]) for f in fields}
             if len(impl) > 1:
                 d.tag("schema.object_multi_iface")
-        fields += gen_out_fields(used, 1, 4)
+            # covariance: an implementing object may narrow the type of an interface field (T -> T!, [T] -> [T!])
+            narrowed = []
+            for f in fields:
+                if d.bool(0.2):
+                    t = f["type"]
+                    opts = []
+                    if not t.endswith("!"):
+                        opts.append(t + "!")
+                    inner = re.sub(r"([A-Za-z0-9_]+)(\])", r"\1!\2", t, count=1)
+                    if inner != t and "!]" not in t[: t.find("]") + 1]:
+                        opts.append(inner)
+                    if opts:
+                        f = dict(f, type=d.choice(opts))
+                        d.tag("schema.covariant_field")
+                narrowed.append(f)
+            fields = narrowed
+        fields += gen_out_fields(used, 1, 4, own=name)
         desc.objects[name] = {"implements": impl, "fields": fields}
     # every interface needs at least one implementation for interesting responses
     for iname in iface_names:
